@@ -246,6 +246,21 @@ pub fn gen_conc(rng: &mut Rng, count: u64, tier: &str) -> Vec<String> {
     let tree = tree_token_pub();
     let mut out = vec![];
     let files = ["a.txt", "sub/b.bin", "big", "probe.txt", "empty"];
+    // several clients read the same file at the same time, round by round (each has its own position in it)
+    for flags in ["-", "s", "d", "sd"] {
+        for (b0, b1, b2) in [("512", "64", "1024"), ("8", "8", "9"), ("1024", "1024", "1024")] {
+            let name: &[u8] = if b0 == "8" { b"sub/b.bin" } else { b"big" };
+            let cl: Vec<String> = [b0, b1, b2].iter().map(|b| format!("D:{}", hex(&req_pub(1, name, &[("blksize".to_string(), b.to_string()), ("windowsize".to_string(), "2".to_string())])))).collect();
+            let mut sched = vec![];
+            for r in 0..40 {
+                sched.push(format!("c{}", r % 3));
+                if r % 7 == 3 {
+                    sched.push(format!("c{}", (r + 1) % 3));
+                }
+            }
+            out.push(format!("conc {flags} 0 {tree} {} {}", cl.join(";"), sched.join(",")));
+        }
+    }
     for n in 0..count {
         let k = if tier == "thorough" { rng.range(2, 10) } else { rng.range(2, 5) } as usize;
         let mut flags = String::new();
